@@ -10,6 +10,7 @@ import (
 	"math/rand"
 	"os"
 	"os/exec"
+	"runtime/debug"
 	"sort"
 	"strings"
 	"time"
@@ -104,16 +105,27 @@ func implStep(line string) (out string) {
 	if !ok {
 		return "bad-op"
 	}
+	// a fault inside Go code (e.g. reading through a pointer into an LMDB page) becomes a panic
+	// instead of killing the harness
+	defer debug.SetPanicOnFault(debug.SetPanicOnFault(true))
 	defer func() {
 		if r := recover(); r != nil {
 			out = "err panic"
 			lastPanic = fmt.Sprint(r)
+			if faultHook != nil {
+				if o := faultHook(f, lastPanic); o != "" {
+					out = o
+				}
+			}
 		}
 	}()
 	return h(f[1:])
 }
 
 var lastPanic string
+
+// faultHook lets an op family classify a recovered panic (see ops_txn.go, finding D13).
+var faultHook func(fields []string, panicText string) string
 
 // implStepWatch runs implStep with a watchdog; a hang is reported as "err hang" (the
 // goroutine is abandoned).
@@ -135,6 +147,9 @@ func watched(op string) bool {
 func runImpl(s Script) []string {
 	out := make([]string, len(s.Lines))
 	for i, l := range s.Lines {
+		if os.Getenv("LSH_TRACE") != "" {
+			fmt.Fprintln(os.Stderr, "TRACE", l)
+		}
 		if watched(l) {
 			out[i] = implStepWatch(l, 3*time.Second)
 		} else {
@@ -290,6 +305,12 @@ func shrink(s Script, kind string) Script {
 		model, err := runModel([]Script{c})
 		if err != nil {
 			return false
+		}
+		for i := range impl {
+			// a candidate that broke the script's own set-up is not a smaller failing case
+			if impl[i] == "bad-op" || model[0][i] == "bad-op" || (impl[i] == "err panic" && strings.Contains(lastPanic, "nil pointer")) {
+				return false
+			}
 		}
 		return classify(impl, model[0]) == kind
 	}
